@@ -412,8 +412,21 @@ def run(tier, seed, only_cases=None):
                     calls.append((name, flags[name][style], []))
                 else:
                     calls[-1][2].append(parse_event(e))
-            if len(calls) != 2 * n:
-                raise vc.ToolError("hook log has %d is_safe_arg calls, expected %d" % (len(calls), 2 * n))
+            if len(calls) != 2 * n or any(name != "a%d" % (k % n + 1) for k, (name, _s, _e) in enumerate(calls)):
+                # the generator no longer evaluates every argument once per trait, in order: the Mech layer is out of date;
+                # the flags themselves were judged above (S->I) and are judged here against the reference semantics
+                out.model_drift("TraceLogSafety", "run %s: hook log has %d is_safe_arg calls (%s...), the model expects %d in argument order" % (
+                    obs["id"], len(calls), [c_[0] for c_ in calls[:4]], 2 * n))
+                s_ref = py_safe_types(c["tab"])
+                for j, a in enumerate(c["args"]):
+                    exp = (a["decl"] == "safe") if a["decl"] != "undeclared" else (a["legacy"] or all(x in s_ref for x in a["ty"]))
+                    for style in ("sync", "async"):
+                        got = flags.get("a%d" % (j + 1), {}).get(style)
+                        if got is not None and got != exp:
+                            out.violation("C08:%s:trace" % ("unsound" if got else "incomplete"), "argument a%d (%s trait) generated %s, the reference semantics says %s" % (
+                                j + 1, style, "safe" if got else "not safe", "safe" if exp else "not safe"), {"case": c, "layout": 0, "seed": seed * 7919 + int(obs["id"][1:])})
+                accepted_skipped = True
+                continue
             f.write(json.dumps({"ev": "table", "tab": c["tab"]}) + "\n")
             lines_meta.append(("table", obs["id"], None))
             nlines += 1
@@ -429,12 +442,18 @@ def run(tier, seed, only_cases=None):
     if nruns == 0:
         out.notes.append("DEBUG: trace validation skipped")
         return out.finish()
-    tr = vc.tlc(PID, "TraceLogSafety", "TraceLogSafety.cfg", workers=1, timeout_s=900, trace_file=trace_path,
-                deque=True, coverage=False, xmx="4g")
-    if tr.error and not tr.prints:
-        raise vc.ToolError("trace validation: %s" % tr.error)
     accepted_runs = nruns
-    for kind, payload in tr.prints:
+    if nlines == 0:
+        # no run produced a hook log of the modelled shape (reported as MODEL-DRIFT above): nothing for TLC to validate
+        out.notes.append("trace validation skipped: no recorded run matches the modelled call structure")
+        tr = None
+        accepted_runs = 0
+    else:
+        tr = vc.tlc(PID, "TraceLogSafety", "TraceLogSafety.cfg", workers=1, timeout_s=900, trace_file=trace_path,
+                    deque=True, coverage=False, xmx="4g")
+        if tr.error and not tr.prints:
+            raise vc.ToolError("trace validation: %s" % tr.error)
+    for kind, payload in (tr.prints if tr else []):
         if kind == "PROPFAIL":
             what, rid, k = lines_meta[payload["line"] - 1]
             c = tmeta[rid]
@@ -446,11 +465,12 @@ def run(tier, seed, only_cases=None):
             out.model_drift("TraceLogSafety", "line %d: recursion events differ from the model" % payload["line"])
         elif kind == "UNMATCHED":
             raise vc.ToolError("trace not consumed at line %s: %s" % (payload["line"], payload["rec"]))
-    if tr.distinct != nlines + 1 and not tr.prints:
+    if tr and tr.distinct != nlines + 1 and not tr.prints:
         raise vc.ToolError("trace validation consumed %d of %d lines" % (tr.distinct - 1, nlines))
-    with open(trace_path) as f:
-        first = [json.loads(next(f)) for _ in range(2)]
-    samples.append({"kind": "I->S trace lines", "lines": first})
+    if nlines >= 2:
+        with open(trace_path) as f:
+            first = [json.loads(next(f)) for _ in range(2)]
+        samples.append({"kind": "I->S trace lines", "lines": first})
 
     out.coverage = {
         "states": states,
